@@ -19,6 +19,9 @@ NAME_PIECES = ["rule", "é", "€", " ", "#", '"', "x", "1", ":", ";", "{", "Fil
                # text that changes under Unicode normalisation or case folding: it must come back code point for code point
                "e\u0301", "\u212b", "\u2126", "\uf900", "q\u0323\u0307", "q\u0307\u0323", "ǅ", "İ", "ß", "ﬁ",
                "%", "%s", "%(name)s", "{}", "{0}", "%%"]
+# values of conditions and actions: the safe alphabet plus line ends inside a value (a reason, a rejection text over several
+# lines): what is saved must be what the set holds, line ends included
+VALUE_PIECES = gen_factory.SAFE_PIECES + ["\r\n", "\n", "\r", "line one\r\nline two"]
 PREFIXES = [("# Filter: ", "# Description: "), ("#F:", "#D:"), ("# name = ", "# about = "), ("#§ ", "#¶ "),
             ("# [rule] ", "# (about) "), ("# name? ", "# desc+ "), ("# rule.* ", "# d|x: "), ("# \\d ", "# ^$ "), ("# Rule (auto): ", "# {1} "),
             # text that means something to a string-formatting routine: it is marker text, written and recognised as it stands
@@ -59,7 +62,7 @@ def build(r):
     used = set()
     for i in range(r.randint(1, 4)):
         conds, acts, mt, n = gen_factory.gen_filter(r)
-        vals = [gen_factory.hostile_value(r, gen_factory.SAFE_PIECES) for _ in range(n)]
+        vals = [gen_factory.hostile_value(r, VALUE_PIECES) for _ in range(n)]
         name = plain_line(r, pref, used)
         used.add(name)
         fs.addfilter(name, gen_factory.fill(conds, vals), gen_factory.fill(acts, vals), mt)
@@ -94,12 +97,12 @@ def build(r):
                 break
         elif op == "update" and fs.getfilter(nm) is not None:
             conds, acts, mt, n = gen_factory.gen_filter(r)
-            vals = [gen_factory.hostile_value(r, gen_factory.SAFE_PIECES) for _ in range(n)]
+            vals = [gen_factory.hostile_value(r, VALUE_PIECES) for _ in range(n)]
             fs.updatefilter(nm, nm, gen_factory.fill(conds, vals), gen_factory.fill(acts, vals), mt)
         elif op == "replace" and fs.getfilter(nm) is not None:
             tmp = FiltersSet("x")
             conds, acts, mt, n = gen_factory.gen_filter(r)
-            vals = [gen_factory.hostile_value(r, gen_factory.SAFE_PIECES) for _ in range(n)]
+            vals = [gen_factory.hostile_value(r, VALUE_PIECES) for _ in range(n)]
             tmp.addfilter("x", gen_factory.fill(conds, vals), gen_factory.fill(acts, vals), mt)
             fs.replacefilter(nm, tmp.getfilter("x"), description=(plain_line(r, pref, set()) if r.random() < 0.3 else None))
             for e in tmp.requires:
